@@ -88,6 +88,11 @@ func (f *Frame) onStack(fn *ssa.Function) bool {
 func (f *Frame) callStatic(b *ssa.BasicBlock, in *ssa.Call, callee *ssa.Function, args []Val, binds []Val, st *State, g string, rs *types.Tuple) Val {
 	e := f.e
 	full := callee.String()
+	if e.nopanic && in != nil && !in.Call.IsInvoke() && callee.Signature.Recv() != nil && len(args) > 0 && args[0].LV == nil && inModule(callee) {
+		if _, isPtr := callee.Signature.Recv().Type().Underlying().(*types.Pointer); isPtr {
+			f.safety(b, "nilrecv", in, not(eq(args[0].T, "0")))
+		}
+	}
 	if callee.Synthetic != "" && callee.Blocks != nil && (strings.HasPrefix(callee.Synthetic, "wrapper") || strings.HasPrefix(callee.Synthetic, "bound") || strings.HasPrefix(callee.Synthetic, "thunk")) {
 		// wrappers: inline directly
 		if f.depth < inlineDepthLimit+4 && !f.onStack(callee) {
@@ -147,7 +152,8 @@ func (f *Frame) callStatic(b *ssa.BasicBlock, in *ssa.Call, callee *ssa.Function
 		e.funcsUsed[funcFull(callee)] = "contract"
 		return f.contractCall(b, in, callee, sp, args, st, g)
 	}
-	if callee.Blocks != nil && inModule(callee) && f.depth < inlineDepthLimit && !f.onStack(callee) {
+	if callee.Blocks != nil && inModule(callee) && f.depth < inlineDepthLimit && !f.onStack(callee) && e.inlineBudget > 0 && !f.noInline {
+		e.inlineBudget--
 		if _, ok := e.funcsUsed[funcFull(callee)]; !ok {
 			e.funcsUsed[funcFull(callee)] = "inlined"
 		}
@@ -531,7 +537,11 @@ func (f *Frame) contractCall(b *ssa.BasicBlock, in *ssa.Call, callee *ssa.Functi
 	}
 	post := f.ctxFor(callee, args, rvals, st, before, g)
 	for _, en := range sp.Ensures {
-		e.assume(implies(g, post.eval(en.Expr).T))
+		t, ok := evalClauseAt(post, en)
+		if !ok {
+			continue // the clause talks about a local of the callee: it is an internal assertion, not part of what callers learn
+		}
+		e.assume(implies(g, t))
 	}
 	return res
 }
@@ -585,6 +595,12 @@ func (f *Frame) invoke(b *ssa.BasicBlock, in *ssa.Call, c *ssa.CallCommon, recv 
 	}
 	var outs []outc
 	var conds []string
+	saveNoInline := f.noInline
+	if len(imps) > 3 {
+		// wide dynamic dispatch: method bodies are not inlined (contracts are used where they exist)
+		f.noInline = true
+	}
+	defer func() { f.noInline = saveNoInline }()
 	for _, t := range imps {
 		ms := e.prog.MethodSets.MethodSet(t)
 		sel := ms.Lookup(c.Method.Pkg(), mname)
